@@ -37,7 +37,7 @@ ASSUMPTIONS = [
 ]
 MUST_REACH = {"reliable_arrivals": 1000, "duplicate_arrivals": 200, "unreliable_arrivals": 500, "acks_sent_checked": 1000,
               "sends_completed_by_appended_ack": 50, "sends_completed_by_packetack": 50, "budgets_exhausted": 5,
-              "region_level_duplicates_checked": 100, "reordered_first_arrivals": 100, "session_level_duplicates_checked": 100, "ids_checked_increasing": 1000, "long_circuit_retransmissions": 100, "sends_of_prenumbered_messages": 50}
+              "region_level_duplicates_checked": 100, "reordered_first_arrivals": 100, "session_level_duplicates_checked": 100, "ids_checked_increasing": 1000, "long_circuit_retransmissions": 100, "sends_of_prenumbered_messages": 50, "sequences_with_fractional_resend_interval": 10}
 
 _ser = UDPMessageSerializer()
 _es = Settings()
@@ -45,6 +45,7 @@ _es.ENABLE_DEFERRED_PACKET_PARSING = False
 _eager = UDPMessageDeserializer(settings=_es)
 SIM = ("10.1.0.1", 13001)
 RESEND_EVERY = 3.0
+CURRENT = {"resend_every": RESEND_EVERY}
 
 
 class StubManager:
@@ -62,12 +63,16 @@ def make_client():
     session.transport = transport
     session.open_circuit(SIM)
     region.circuit.is_alive = True
-    region.circuit.resend_every = RESEND_EVERY
+    region.circuit.resend_every = CURRENT["resend_every"]
     protocol = HippoClientProtocol(session)
     return session, region, transport, protocol
 
 
 def _run_sequence(ctx, rng, seed):
+    # the resend interval is the caller's to choose: the default and a fractional one
+    CURRENT["resend_every"] = 1.5 if seed % 3 == 0 else RESEND_EVERY
+    if CURRENT["resend_every"] != RESEND_EVERY:
+        ctx.count("sequences_with_fractional_resend_interval")
     session, region, transport, protocol = make_client()
     tries = rng.choice([3, 10])
     calls = {}   # (level, kind, packet id) -> count
@@ -258,7 +263,7 @@ def _run_sequence(ctx, rng, seed):
                 ctx.violation("send-completed-without-ack", "a reliable send's future is done immediately", dict(wit_base, packet_id=m.packet_id))
             continue
         # clock
-        step = rng.choice([1.0, 3.0, 3.0])
+        step = rng.choice([1.0, 3.0, 3.0, 0.8, 0.8])
         now += step
         _advance(step)
         history.append(("tick", step))
@@ -271,7 +276,7 @@ def _run_sequence(ctx, rng, seed):
         expected = []
         for pid in list(pending):
             fut, last, left = pending[pid]
-            if now - last >= RESEND_EVERY - 1e-9:
+            if now - last >= CURRENT["resend_every"] - 1e-9:
                 left -= 1
                 if left == 0:
                     ctx.count("budgets_exhausted")
